@@ -252,11 +252,17 @@ func (fr *Frame) anchor(owner *Frame, k int, a AssertAt, x *ssa.Call) {
 		name = fmt.Sprintf("%s@%d", name, n)
 	}
 	fr.u.addObl(name, "assert", fr.reach, t, a.C.Where, a.C.Src)
+	if len(a.Expand) > 0 {
+		fr.u.obls[len(fr.u.obls)-1].Expand = expandSet(a.Expand)
+	}
 	if len(a.From) > 0 {
 		// proved from the named earlier assertions alone
 		o := fr.u.obls[len(fr.u.obls)-1]
 		var hs []*Term
 		for _, l := range a.From {
+			if l == "nothing" {
+				continue // a fact that needs no hypothesis (tables, arithmetic)
+			}
 			h, ok := fr.u.labelled[l]
 			if !ok {
 				fr.u.errs = append(fr.u.errs, fmt.Sprintf("%s: assert ... from %s: no earlier assertion with that name on this path (contract.attach)", a.C.Where, l))
@@ -528,6 +534,11 @@ func (fr *Frame) callContract(x ssa.Instruction, callee *ssa.Function, c *Contra
 		fr.u.facts = append(fr.u.facts, validFacts(rv, fr.st.Next, nil)...)
 	}
 	for _, t := range ens {
+		if u.contract != nil && u.contract.Lemma && u.contract.Skolemize[c.Fn] {
+			// lemma functions may ask (skolemize <callee>) that a postcondition (forall k. H) ==> C is assumed in the equisatisfiable
+			// form H(sk) ==> C, so that the instantiation passes see ground terms for the hypothesis
+			t = skolemizeHyp(t)
+		}
 		fr.assume(t)
 	}
 	if c.Trusted {
